@@ -93,6 +93,20 @@ static std::string parse_flat(std::string const &schema, std::string const &conf
         for (size_t i = 0; i < v.size(); i++) out += (i ? ";" : "") + vs_hex(v[i]);
         out += "]";
       }
+    } else if (kind[0] == 'Y') {
+      size_t n = atoi(kind.c_str() + 1);
+      std::string o = "[";
+      bool found = false;
+      if (n == 3) {
+        std::vector<cvm::rvector> v;
+        found = p.get_keyval(conf, key.c_str(), v, std::vector<cvm::rvector>(), m);
+        for (size_t i = 0; i < v.size(); i++) o += (i ? "|" : "") + vs_hex(v[i].x) + ";" + vs_hex(v[i].y) + ";" + vs_hex(v[i].z);
+      } else {
+        std::vector<cvm::quaternion> v;
+        found = p.get_keyval(conf, key.c_str(), v, std::vector<cvm::quaternion>(), m);
+        for (size_t i = 0; i < v.size(); i++) o += (i ? "|" : "") + vs_hex(v[i].q0) + ";" + vs_hex(v[i].q1) + ";" + vs_hex(v[i].q2) + ";" + vs_hex(v[i].q3);
+      }
+      if (found) out = o + "]";
     } else if (kind[0] == 'T') {
       size_t n = atoi(kind.c_str() + 1);
       std::vector<double> comp;
